@@ -86,6 +86,8 @@ def run(ctx):
     ctx.guard("R01.6", "in-attribute", lambda: in_attribute_flag_rule(ctx, "R01.6"))
     ctx.guard("R01.6", "end-runs/html", lambda: tr.end_runs_before_eof(ctx, "R01.6", "html"))
     ctx.guard("R01.6", "charref-start-states", lambda: charref_start_states_rule(ctx, "R01.6"))
+    ctx.rule("R01.12", "'emit the current tag token' (attribute finished first; last start tag name for start tags only; token fields; the sink's answer selects PLAINTEXT / a raw state / data + pause) and 'appropriate end tag token' equal their transcription")
+    ctx.guard("R01.12", "emit-tag", lambda: tr.emit_tag_transcription(ctx, "R01.12"))
     ctx.rule("R01.11", "no attribute value without a name (html5ever): value states are entered from attribute states only, or finish_attribute empties the value buffer for an empty name")
     ctx.guard("R01.11", "value-without-name", lambda: tr.no_value_without_name(ctx, "R01.11", "html"))
     ctx.rule("R01.10", "= R03.16: input stream preprocessing equals its transcription (CR / CR LF normalisation precedes tokenization)")
